@@ -116,10 +116,11 @@ def run_batch(sim_name, prop, tier, seed, stratum, indices, hash_seed="0", focus
             core.close_oracles()
     return {
         "stratum": stratum, "first": indices[0] if indices else -1,
-        "stats": dict(stats), "digests": digests,
+        "stats": dict(stats),
+        "digests": [hashlib.sha256("".join(digests).encode()).hexdigest()],   # one per batch
         "sigs": {k: sorted(v) for k, v in sigs.items()},
         "known": known_hits, "unknown": unknown, "other": dict(other),
-        "samples": samples, "ops": n_ops, "runs": len(digests),
+        "samples": samples, "ops": n_ops, "runs": len(digests),  # (evaluated before the dict above replaces the list)
         "census": dict(census), "census_w": census_w,
     }
 
